@@ -25,6 +25,9 @@ func init() {
 	reg.Register("c07.keyobj", "C07", keyobj)
 	reg.Register("c07.mixed", "C07", mixed)
 	reg.Register("c07.curves", "C07", curves)
+	reg.Register("c07.der", "C07", der)
+	reg.Register("c07.long", "C07", long)
+	reg.Register("c07.buffers", "C07", buffers)
 }
 
 func selfTest(x *mon.Ctx) {
